@@ -321,6 +321,9 @@ func typeConstraint(t types.Type, cs []Term) Term {
 		}
 		if c.Sort == SInt {
 			out = append(out, Ge(x, TZero))
+			if strings.HasSuffix(c.Suffix, "#l") {
+				out = append(out, Le(x, Term{"1099511627776", SInt}))
+			}
 		}
 	}
 	return And(out...)
